@@ -165,7 +165,41 @@ def h_message(e, m, mode):
     return c15.h_runtime(e, m, mode)
 
 
-HARNESSES = {"roundtrip": h_roundtrip, "listing": h_listing, "message": h_message}
+def h_toy_listing(e, which):
+    """TOY: the instruction column of the memory table, read after the load and after every step
+    of a (self-modifying) program, re-assembles row by row to the word that memory holds now."""
+    from architecture_simulator.simulation.toy_simulation import ToySimulation
+    from checks.asm import Text
+    from checks.c06 import REUSE_TEXTS
+
+    Tx = Text(e)
+    a, b = e.int("a", 0, 0xFFFF), e.int("b", 0, 0xFFFF)
+    sim = ToySimulation()
+    sim.load_program(dict(REUSE_TEXTS)[which].format(a=Tx.num(a), b=Tx.hexnum(b)))
+    n = 0
+    while True:
+        rows = sim.get_memory_table_entries()
+        for r in rows:
+            adr, text = r[0][0], r[2]
+            if text == "-":
+                continue
+            fresh = ToySimulation()
+            try:
+                fresh.load_program("\n".join(["NOP"] * adr + [str(text)]))
+                word = fresh.state.memory.read_halfword(adr)
+            except Exception as ex:  # noqa
+                e.claim("listed-text-assembles@%d:s%d" % (adr, n), False, {"text": str(text), "exception": repr(ex)[:100]})
+                continue
+            e.claim_eq("listed-text-denotes-the-word-in-memory@%d:s%d" % (adr, n), val(word), val(sim.state.memory.read_halfword(adr)), {"text": str(text)})
+        if sim.is_done() or n >= 12:
+            break
+        sim.step()
+        n += 1
+    e.observe("steps", n)
+    e.claim("canary:toy-listing", n == -1)
+
+
+HARNESSES = {"roundtrip": h_roundtrip, "listing": h_listing, "message": h_message, "toy_listing": h_toy_listing}
 
 
 def nregs(m):
@@ -203,6 +237,10 @@ def jobs(tier, seed):
         if (i + seed) % (6 if tier == "quick" else 1) != 0:
             continue
         out.append({"label": "listing-%s" % ".".join(sk), "harness": "listing", "args": {"shapes": list(sk), "directives": "data_first" if i % 2 else "text_first"}, "cost": 3, "validate_every": 2})
+    from checks.c06 import REUSE_TEXTS
+
+    for nm, _ in REUSE_TEXTS:
+        out.append({"label": "toy-listing-%s" % nm, "harness": "toy_listing", "args": {"which": nm}, "cost": 5, "validate_every": 1})
     return out
 
 
